@@ -57,6 +57,9 @@ type Runner struct {
 	refuse         bool // cuts fail fast instead of black-holing
 	lossy          bool
 	flakyReads     map[string]*flakyRead // server id -> window of failing log reads
+	verifyOnIS     int                   // >0: when the next InstallSnapshot request goes out, call VerifyLeader on its sender that many ms (minus one) later
+	verifyAt       int64                 // virtual ms at which that call is due (0: none)
+	verifyOn       string                // the sender
 	dropAppendAcks bool                  // acknowledgements of AppendEntries that carry entries are lost (inheritedtail macro)
 	quiet          bool
 	faults         []*faultSpec
@@ -130,7 +133,7 @@ func (r *Runner) nodeOpts(i int) sim.NodeOpts {
 			c.BatchApplyCh = p.BatchCh
 			c.ShutdownOnRemove = p.ShutRm
 			c.PreVoteDisabled = p.NoPreVote[i]
-			c.RestoreCommittedLogs = p.RCL && sim.Flavour(p.Flavour[i]) == sim.CommitTracking
+			c.RestoreCommittedLogs = p.RCL && sim.Flavour(p.Flavour[i]) >= sim.CommitTracking
 		},
 	}
 }
@@ -241,6 +244,10 @@ func (r *Runner) policy(m *sim.Msg, resp bool) sim.Verdict {
 			return sim.VRefuse
 		}
 		return sim.VDrop
+	}
+	if r.verifyOnIS > 0 && !resp && m.Kind == sim.KSnapshot && r.verifyAt == 0 {
+		r.verifyAt, r.verifyOn = r.W.Now()+int64(r.verifyOnIS-1), m.From
+		r.verifyOnIS = 0
 	}
 	if r.dropAppendAcks && resp && !r.quiet {
 		if ae, ok := m.Req.(*raft.AppendEntriesRequest); ok && len(ae.Entries) > 0 {
